@@ -19,6 +19,10 @@ fn lt(k: int)->(int)->(bool){ (x: int)->{ x < k } }
 fn shout(x: int)->int{ display(x) }
 fn walk(n: int, step: int ?= 1)->int{ if(n <= 0, 0, walk(n - step)) }
 fn walk2(n: int, acc: int ?= 0, step: int ?= 1)->int{ if(n <= 0, acc, walk2(n - step, acc + 1)) }
+fn eq2(a: int, b: int)->bool{ a == b }
+fn eqmod2(a: int, b: int)->bool{ a % 2 == b % 2 }
+fn same(a: int, b: int)->bool{ true }
+fn pair(x: int)->Generator<int>{ [x, x].to_generator() }
 '''
 
 BIG = 10 ** 9
@@ -56,6 +60,20 @@ def templates(ks):
         out.append(('printing(%d)' % k, 'range(%d).map(shout).to_array()' % k, 2, 1 + k, 0, 0, True))
         out.append(('reduce(%d)' % k, 'range(%d).reduce(add2)' % (k + 1), 2, 1 + k, 0, 0, False))
         out.append(('sort(%d)' % k, 'range(%d).map((x: int)->{ %d - x }).sort((a: int, b: int)->{ cmp(a, b) })' % (k + 1, k), 2, 1 + k, 0, 0, False))
+        # generator pipelines over k source elements: every node examines what it pulls and no more.  (out, pulled) = elements the
+        # consumer pulls / the most any node pulls; where they agree the threshold is exact, otherwise only monotonicity and
+        # transparency are checked
+        pipes = [('', k, k), ('.map(inc)', k, k), ('.filter(pos)', k, k), ('.take_while(pos)', k, k), ('.skip_until(pos)', k, k), ('.enumerate()', k, k),
+                 ('.windows(2)', max(k - 1, 0), k), ('.chunks(2)', (k + 1) // 2, k), ('.group(eq2)', k, k), ('.group(eqmod2)', k, k), ('.group(same)', min(k, 1), k),
+                 ('.distinct()', k, k), ('.with_count()', k, k), ('.aggregate(add2)', k, k), ('.aggregate(0, add2)', k + 1, k + 1), ('.zip(range(%d).to_generator())' % k, k, k),
+                 ('.repeat(2)', 2 * k, 2 * k), ('.take(2)', min(k, 2), min(k, 2)), ('.skip(1)', k - 1, k), ('.map(pair).flatten()', 2 * k, 2 * k),
+                 ('.product([1, 2].to_generator())', 2 * k, 2 * k), ('.group(eq2).map((g: Sequence<int>)->{ g.len() })', k, k), ('.filter(pos).group(eqmod2)', k, k),
+                 ('.group(eq2).map((g: Sequence<int>)->{ g.to_generator() }).flatten()', k, k)]
+        for ptxt, outn, pulled in pipes:
+            if 'flatten' in ptxt or 'repeat' in ptxt:
+                pulled = outn + 1   # written in the language as a fold with a seed: the seed is an element of the folded stream
+            for ctxt in ('.to_array()', '.len()', '.last()'):
+                out.append(('pipe%s%s(%d)' % (ptxt, ctxt, k), 'range(%d).to_generator()%s%s' % (k, ptxt, ctxt), 1, 1, 0, outn if outn == pulled else 0, False))
     # a call that is skipped because an argument is an error value is not a call: its body never starts
     out.append(('skipped-calls', '(is_error(inc(error("e"))), is_error(inc(error("e"))), is_error(inc(error("e"))), inc(1))', 2, 2, 0, 0, True))
     out.append(('skipped-calls-lambda', 'let f = (x: int)->{ x }; (is_error(f(error("e"))), is_error(f(error("e"))), f(1))', 2, 2, 0, 0, True))
